@@ -27,10 +27,13 @@
      block(body)  for(init,c,post,body)  break continue return panic
    Value expressions: lit(v) var(n) add(n,d) obs(id,n) (= r.V(id, n): logs, returns n)
 
-   Frames: [t:"seq",ss,env] [t:"loop",c,post,body,env] [t:"sw"] [t:"deleg",it]
+     range(kind,xf,kf,vf,wrap,body)   for K, V :=/= range X { body } over the generator's local
+                        collection of that kind (see "collections" below); inside the body
+                        effkv(id) = r.E(id, K, V), yield of var k / v, mutations of the collection
+   Frames: [t:"seq",ss,env] [t:"loop",c,post,body,env] [t:"sw"] [t:"deleg",it] [t:"range",s,st,env]
    One advance (Adv) runs a coroutine's control stack to the next yield, the end,
    a return or a panic; nested advances (delegation) are the same operator. *)
-EXTENDS Rec, FiniteSets
+EXTENDS Rec, RangeSem, FiniteSets
 
 MW0(table, tape, budget, flags) ==
   [store |-> <<>>, log |-> <<>>, tape |-> tape, budget |-> budget, panic |-> "", fuel |-> 400,
@@ -49,19 +52,29 @@ EvalV(ve, env, w) ==
     [] ve.k = "obs" -> LET x == Get(w, env, ve.n) IN [v |-> x, w |-> Log(w, <<"v", ve.id, x>>)]
 
 \* create an instance of generator g with arguments (a, b): no effects (C02)
+\* Collections: every generator instance owns the local collections that range loops
+\* iterate over (declared in the function's prolog by the renderer):
+\*   s   := []int{10,20,30} with capacity 4      arr := [3]int{10,20,30}
+\*   str := "a\u00e9\xffz" (bytes 97 195 169 255 122)   n := 3
+\*   ch  := buffered channel holding 10, 20, closed
+Heap0 == [s |-> [cells |-> <<10, 20, 30, 0>>, len |-> 3], arr |-> <<10, 20, 30>>,
+          str |-> <<97, 195, 169, 255, 122>>, n |-> 3, ch |-> <<10, 20>>]
 Spawn(w, g, a, b) ==
   LET c1 == Alloc(w, a) c2 == Alloc(c1.w, b)
-      env == [a |-> c1.id, b |-> c2.id] IN
+      c3 == Alloc(c2.w, 0 - 1) c4 == Alloc(c3.w, 0 - 1) c5 == Alloc(c4.w, 0 - 7)
+      \* kk, vv: function-level variables assigned by `=` range loops; k, v denote the key / value
+      \* variable of the innermost range loop (a cell holding -7 when there is none)
+      env == [a |-> c1.id, b |-> c2.id, kk |-> c3.id, vv |-> c4.id, k |-> c5.id, v |-> c5.id, none |-> c5.id] IN
   [id |-> Len(w.cos) + 1,
-   w  |-> [c2.w EXCEPT !.cos = Append(@, [k |-> <<[t |-> "seq", ss |-> w.table[g], env |-> env]>>,
-                                          cur |-> Zero, done |-> FALSE, penv |-> env])]]
+   w  |-> [c5.w EXCEPT !.cos = Append(@, [k |-> <<[t |-> "seq", ss |-> w.table[g], env |-> env]>>,
+                                          cur |-> Zero, done |-> FALSE, penv |-> env, heap |-> Heap0])]]
 
 \* ---------------------------------------------------------------- control stack helpers
 EndBody == [k |-> "$endbody"]
 RECURSIVE ToLoop(_), PastBreakTarget(_)
-ToLoop(k) == IF Head(k).t = "loop" THEN k ELSE ToLoop(Tail(k))
-PastBreakTarget(k) == IF Head(k).t \in {"loop", "sw"} THEN Tail(k) ELSE PastBreakTarget(Tail(k))
-PostFrames(lp) == IF IsNone(lp.post) THEN <<>> ELSE <<[t |-> "seq", ss |-> <<lp.post>>, env |-> lp.env]>>
+ToLoop(k) == IF Head(k).t \in {"loop", "range"} THEN k ELSE ToLoop(Tail(k))
+PastBreakTarget(k) == IF Head(k).t \in {"loop", "range", "sw"} THEN Tail(k) ELSE PastBreakTarget(Tail(k))
+PostFrames(lp) == IF lp.t = "range" \/ IsNone(lp.post) THEN <<>> ELSE <<[t |-> "seq", ss |-> <<lp.post>>, env |-> lp.env]>>
 IsYielding(s) == ~IsNone(s) /\ s.k \in {"yield", "yfrom"}
 
 SetK(w, i, k) == [w EXCEPT !.cos[i].k = k]
@@ -80,6 +93,34 @@ SelectCase(cases, b) ==
   ELSE IF def # {} THEN CHOOSE j \in def : TRUE ELSE 0
 CaseStmts(cases, j, env) ==
   cases[j].body \o (IF cases[j].ft /\ j < Len(cases) THEN <<[k |-> "$fall", j |-> j + 1, cases |-> cases, env |-> env]>> ELSE <<>>)
+
+\* ---------------------------------------------------------------- range loops (Go spec, RangeSem)
+\* state of a running loop: the range expression was evaluated ONCE, when the statement was reached
+RangeStart(s, heap, flags) ==
+  CASE s.kind = "slice"  -> [idx |-> 0, len |-> heap.s.len]                \* header snapshot, live element reads
+    [] s.kind = "array"  -> [idx |-> 0, copy |-> heap.arr]                 \* an array is ranged over a COPY
+    [] s.kind = "string" -> [idx |-> 0, pairs |-> RangeString(heap.str)]
+    [] s.kind = "int"    -> [idx |-> 0, n |-> heap.n]
+    [] s.kind = "chan"   -> [idx |-> 0]
+\* next pair: [ok, k, v]
+RangeNext(s, st, heap, flags) ==
+  CASE s.kind = "slice"  -> IF st.idx < st.len THEN [ok |-> TRUE, k |-> st.idx, v |-> heap.s.cells[st.idx + 1]] ELSE [ok |-> FALSE, k |-> 0, v |-> 0]
+    [] s.kind = "array"  -> IF st.idx < Len(st.copy)
+                            THEN [ok |-> TRUE, k |-> st.idx,
+                                  \* KF03b (as built): the array is ranged through arr[:], i.e. live
+                                  v |-> IF "KF03b" \in flags THEN heap.arr[st.idx + 1] ELSE st.copy[st.idx + 1]]
+                            ELSE [ok |-> FALSE, k |-> 0, v |-> 0]
+    [] s.kind = "string" -> IF st.idx < Len(st.pairs) THEN [ok |-> TRUE, k |-> st.pairs[st.idx + 1][1], v |-> st.pairs[st.idx + 1][2]] ELSE [ok |-> FALSE, k |-> 0, v |-> 0]
+    [] s.kind = "int"    -> IF st.idx < st.n THEN [ok |-> TRUE, k |-> st.idx, v |-> 0] ELSE [ok |-> FALSE, k |-> 0, v |-> 0]
+    [] s.kind = "chan"   -> IF st.idx < Len(heap.ch) THEN [ok |-> TRUE, k |-> heap.ch[st.idx + 1], v |-> 0] ELSE [ok |-> FALSE, k |-> 0, v |-> 0]
+\* mutations of the collections performed by loop bodies
+Mutate(m, heap) ==
+  CASE m.op = "sset" -> IF m.j < heap.s.len THEN [heap EXCEPT !.s.cells[m.j + 1] = 99] ELSE heap    \* guarded: if j < len(s) { s[j] = 99 }
+    [] m.op = "sapp" -> IF heap.s.len < 4 THEN [heap EXCEPT !.s.cells[heap.s.len + 1] = 77, !.s.len = @ + 1] ELSE heap  \* s = append(s, 77) within capacity
+    [] m.op = "strunc" -> [heap EXCEPT !.s.len = 1]                                                  \* s = s[:1]
+    [] m.op = "aset" -> [heap EXCEPT !.arr[m.j + 1] = 99]                                            \* arr[j] = 99
+    [] m.op = "nset" -> [heap EXCEPT !.n = 1]                                                        \* n = 1
+    [] m.op = "strset" -> [heap EXCEPT !.str = <<122>>]                                              \* str = "z"
 
 \* ---------------------------------------------------------------- the interpreter
 \* Run(i, w): run coroutine i to its next yield / end / panic:  [st, w]
@@ -103,6 +144,20 @@ Run(i, w) ==
      IF Panicked(r.w) THEN [st |-> "panic", w |-> r.w]
      ELSE IF r.ok THEN [st |-> "yield", w |-> [r.w EXCEPT !.cos[i].cur = r.w.cos[top.it].cur]]
      ELSE Run(i, SetK(r.w, i, rest))
+  ELSE IF top.t = "range" THEN                       \* next iteration of a range loop
+     LET w1 == Tick(w) IN
+     IF Panicked(w1) THEN [st |-> "panic", w |-> w1]
+     ELSE LET nx == RangeNext(top.s, top.st, c.heap, w.flags) IN
+       IF ~nx.ok THEN Run(i, SetK(w1, i, rest))
+       ELSE LET fr == [top EXCEPT !.st.idx = @ + 1]
+                \* `:=` declares fresh variables for the iteration; `=` assigns kk / vv of the function
+                ck == IF top.s.kf = "def" THEN Alloc(w1, nx.k) ELSE [id |-> 0, w |-> w1]
+                cv == IF top.s.vf = "def" THEN Alloc(ck.w, nx.v) ELSE [id |-> 0, w |-> ck.w]
+                w2 == IF top.s.kf = "asg" THEN Set(cv.w, c.penv, "kk", nx.k) ELSE cv.w
+                w3 == IF top.s.vf = "asg" THEN Set(w2, c.penv, "vv", nx.v) ELSE w2
+                benv == [top.env EXCEPT !.k = CASE top.s.kf = "def" -> ck.id [] top.s.kf = "asg" -> c.penv.kk [] OTHER -> c.penv.none,
+                                        !.v = CASE top.s.vf = "def" -> cv.id [] top.s.vf = "asg" -> c.penv.vv [] OTHER -> c.penv.none] IN
+            Run(i, SetK(w3, i, <<[t |-> "seq", ss |-> top.s.body \o <<EndBody>>, env |-> benv], fr>> \o rest))
   ELSE IF top.t = "loop" THEN                        \* evaluate the condition, enter the body
      LET w1 == Tick(w) IN
      IF Panicked(w1) THEN [st |-> "panic", w |-> w1]
@@ -117,6 +172,13 @@ Run(i, w) ==
         k1  == <<[top EXCEPT !.ss = Tail(@)]>> \o rest      \* stack after consuming s
     IN
     CASE s.k = "eff"   -> Run(i, SetK(Log(w, <<"e", s.id, Get(w, env, "a"), Get(w, env, "b")>>), i, k1))
+      [] s.k = "effkv" -> Run(i, SetK(Log(w, <<"e", s.id, Get(w, env, "k"), Get(w, env, "v")>>), i, k1))
+      [] s.k = "effkk" -> Run(i, SetK(Log(w, <<"e", s.id, Get(w, env, "kk"), Get(w, env, "vv")>>), i, k1))
+      [] s.k = "mut"   -> Run(i, [SetK(w, i, k1) EXCEPT !.cos[i].heap = Mutate(s, c.heap)])
+      [] s.k = "range" -> \* the range expression is evaluated exactly once (xf = "call": through a logging closure)
+                          LET w1 == IF s.xf = "call" THEN Log(w, <<"x", s.id, 0>>) ELSE w IN
+                          IF Panicked(w1) THEN [st |-> "panic", w |-> w1]
+                          ELSE Run(i, SetK(w1, i, <<[t |-> "range", s |-> s, st |-> RangeStart(s, c.heap, w.flags), env |-> env]>> \o k1))
       [] s.k = "inc"   -> Run(i, SetK(Set(w, env, s.n, Get(w, env, s.n) + 1), i, k1))
       [] s.k = "def"   -> LET d == ApplyInit(s, env, w) IN
                           Run(i, SetK(d.w, i, <<[top EXCEPT !.ss = Tail(@), !.env = d.env]>> \o rest))
@@ -151,7 +213,7 @@ Run(i, w) ==
       [] s.k \in {"continue", "$endbody"} ->
                           LET kl == ToLoop(k1)
                               \* KF04 (as built): a `continue` under a yielding post statement skips the post
-                              skip == s.k = "continue" /\ "KF04" \in w.flags /\ IsYielding(Head(kl).post) IN
+                              skip == s.k = "continue" /\ "KF04" \in w.flags /\ Head(kl).t = "loop" /\ IsYielding(Head(kl).post) IN
                           Run(i, SetK(w, i, (IF skip THEN <<>> ELSE PostFrames(Head(kl))) \o kl))
       [] s.k = "return" -> [st |-> "done", w |-> SetK(w, i, <<>>)]
 
@@ -160,7 +222,7 @@ RECURSIVE HasY(_), HasYS(_)
 HasYS(s) == CASE s.k \in {"yield", "yfrom"} -> TRUE
               [] s.k = "if"     -> HasY(s.a) \/ HasY(s.b)
               [] s.k = "switch" -> \E j \in 1..Len(s.cases) : HasY(s.cases[j].body)
-              [] s.k = "block"  -> HasY(s.body)
+              [] s.k \in {"block", "range"} -> HasY(s.body)
               [] s.k = "for"    -> IsYielding(s.init) \/ IsYielding(s.post) \/ HasY(s.body)
               [] OTHER -> FALSE
 HasY(ss) == \E j \in 1..Len(ss) : HasYS(ss[j])
